@@ -193,7 +193,9 @@ def main(ck):
     close('KE-reference', ke, 0.5 * v0 @ Mo @ v0, float(np.abs(v0) @ dyn.mass_matrix_scale(S, k) @ np.abs(v0)), K_E * EPS,
           'energy[1] vs 1/2 v\' M_reference v', 'kinetic-reference')
     pe_ref_g, pe_ref_s = dyn.gravity_energy(S, k), dyn.spring_energy(S, k)
-    pscale = sum(abs(float(S.body_mass[b])) * float(np.abs(S.gravity) @ np.abs(k.xipos[b])) for b in range(1, m.nbody)) + abs(pe_ref_s) + 1e-300
+    kmax_ = float(max([0.0] + [abs(float(x)) for x in np.array(m.jnt_stiffness)] + [abs(float(x)) for x in np.array(m.jnt_stiffnesspoly).ravel()]
+                      + ([abs(float(x)) for x in np.array(m.tendon_stiffness)] if m.ntendon else [])))
+    pscale = sum(abs(float(S.body_mass[b])) * float(np.abs(S.gravity) @ np.abs(k.xipos[b])) for b in range(1, m.nbody)) + abs(pe_ref_s) + 1e-14 * (1 + kmax_)   # floor: k*angle^2 with angle ~ a few eps from quaternion re-normalisation
     close('PE-reference', float(d.energy[0]), pe_ref_g + pe_ref_s, pscale, K_E * EPS, 'energy[0] vs reference potential', 'potential-reference')
 
     # ---------------- (c') "reported kinetic energy ALWAYS equals 1/2 v'Mv": also after stage-skipping evaluations
